@@ -72,6 +72,30 @@ def long_case(rng, n_read, n_extra_path, reverse, kind):
     return {"gfa": g.lines(), "gaf": ["\t".join(rec)], "fasta": [[k, v] for k, v in reads.items()]}
 
 
+def indel_case(rng, n, gap, reverse):
+    """one record with n read bases (20000 < n <= 60000) whose valid input CIGAR has a deletion of `gap` bases compensated further down by an
+    insertion of `gap` bases: cost 2 * (6 + 2 * gap); the exact aligner cannot do worse, a band / adaptive heuristic can"""
+    g = L.make_graph(rng, max_len=8, long_node=n + 200)
+    last = [s for s in g.segs if s.sr == 0][-1]
+    walk = [("big", "<")] if reverse else [(last.id, ">"), ("big", ">")]
+    assert g.is_walk(walk)
+    spelled = g.spell(walk)
+    pl = len(spelled)
+    ps = pl - n - rng.randint(0, 40)
+    pe = ps + n
+    ref = spelled[ps:pe]
+    a, b = n // 4, (2 * n) // 3
+    ins = "".join(rng.choice("ACGT") for _ in range(gap))
+    core = ref[:a] + ref[a + gap:b] + ins + ref[b:]
+    cg = "%d=%dD%d=%dI%d=" % (a, gap, b - a - gap, gap, n - b)
+    left = "".join(rng.choice("ACGT") for _ in range(rng.randint(0, 4)))
+    read = left + core + "AC"
+    path = "".join(o + nid for nid, o in walk)
+    rec = ["longindel", str(len(read)), str(len(left)), str(len(left) + len(core)), "+", path, str(pl), str(ps), str(pe), str(n - gap), str(n + gap),
+           "60", "rc:i:0", "cg:Z:" + cg]
+    return {"gfa": g.lines(), "gaf": ["\t".join(rec)], "fasta": [["longindel", read]]}
+
+
 def run(ctx):
     rng = ctx.rng
     n_files = 500 if ctx.quick else 12000
@@ -96,6 +120,13 @@ def run(ctx):
     for n_read, extra, reverse, kind in longs:
         case = long_case(rng, n_read, extra, reverse, kind)
         check_file(ctx, case, "passthrough" if n_read > L.LONG else "boundary-60000")
+    # long reads (20001..60000 bases) with a large deletion compensated by a large insertion: the output may not cost more than the input CIGAR
+    # (added after seeded change C12-6)
+    indels = [(24000, 90, False), (20001, 150, True)] if ctx.quick else [(24000, 90, False), (20001, 150, True), (40000, 300, False), (59999, 60, True)]
+    ctx.bound("%d records with %s read bases whose input CIGAR has a deletion of 60-300 bases compensated by an equal insertion 10 kb further on"
+              % (len(indels), sorted({x[0] for x in indels})))
+    for n, gap, reverse in indels:
+        check_file(ctx, indel_case(rng, n, gap, reverse), "long-compensating-indels")
     return ("each case = one GAF record realigned by the real realign_gaf/wfa_alignment (real worker process, --cores 1); distinct = distinct "
             "(record line, read); non-trivial = the walk has a reverse step or the read slice differs from the path slice or the record is "
             "longer than 60000; oracle = own speller + CIGAR replay ('=' equal, 'X' unequal, both slices consumed exactly), columns 10/11 "
